@@ -169,14 +169,18 @@ def check_case(R, y, w, lam, do_exact=True, do_float=True, do_health=False):
                 R.violation("C01:float64-error", f"float64 rel. error {rel:.3g} > 1e-6 although kappa*eps = {keps:.3g} < 1e-7 (n={n}, lam={lam:.4g})", case)
         else:
             R.note_max("max_rel_err_within_bound", rel)
-    if do_health:
+    if do_health and 1e-6 <= lam <= 1e8:  # float64 claims are made for this lambda range only
         g = _FR["g"]
         with shim.Tap(g, at_return=["d"]) as tap:
             g(y.astype(float), float(lam), w.astype(float))
         d = tap.ret[0]["d"]
         R.count("pivot_vectors_tapped")
         if not np.all(d > 0):
-            R.violation("C01:pivot", f"non-positive pivot d[{int(np.argmin(d))}]={float(d.min())} (n={n}, lam={lam})", case)
+            keps = W.cond2(n, w, lam) * 2.0 ** -53
+            if keps >= 1e-7:  # cancellation in the float64 factorisation of an ill-conditioned system: the known finding
+                R.violation("C01:ill-conditioned", f"non-positive float64 pivot d[{int(np.argmin(d))}]={float(d.min())} with kappa*eps = {keps:.3g} (n={n}, lam={lam:.4g})", case)
+            else:
+                R.violation("C01:pivot", f"non-positive pivot d[{int(np.argmin(d))}]={float(d.min())} (n={n}, lam={lam}, kappa*eps {keps:.3g})", case)
     if R.want_sample():
         R.sample({"n": n, "lam": lam, "w": w[:12], "y": y[:12], "z_exact_first_as_float": float(zF[0])})
 
